@@ -240,15 +240,28 @@ func findSites(v reflect.Value, off int, label string, out *[]site, depth int) {
 }
 
 // memoKey returns the identity of "this replacement at a site of this class, decoded through this
-// entry class" or "" if the mutation touches no site.
-func memoKey(typ string, sites []site, m mutation) string {
+// entry class" or "" if the mutation touches no site, and the shape of the attacked length field
+// ("<site class>/len<0" or "/len>=0": the value the field has after the mutation), which is part
+// of the signature of an allocation failure.
+func memoKey(typ string, sites []site, seed []byte, m mutation) (key, shape string) {
 	if m.Kind == 't' {
-		return ""
+		return "", ""
 	}
 	for _, s := range sites {
-		if m.Off < s.Off+4 && m.Off+m.W > s.Off {
-			return typ + "|" + s.Class + "|" + strconv.Itoa(m.Off-s.Off) + "|" + string(m.Kind) + strconv.FormatUint(uint64(binary.LittleEndian.Uint32(m.New[:])), 16)
+		if m.Off < s.Off+4 && m.Off+m.W > s.Off && s.Off+4 <= len(seed) {
+			var f [4]byte
+			copy(f[:], seed[s.Off:s.Off+4])
+			for i := 0; i < m.W; i++ {
+				if j := m.Off + i - s.Off; j >= 0 && j < 4 {
+					f[j] = m.New[i]
+				}
+			}
+			shape = s.Class + "/len>=0"
+			if f[3]&0x80 != 0 {
+				shape = s.Class + "/len<0"
+			}
+			return typ + "|" + s.Class + "|" + strconv.Itoa(m.Off-s.Off) + "|" + string(m.Kind) + strconv.FormatUint(uint64(binary.LittleEndian.Uint32(m.New[:])), 16), shape
 		}
 	}
-	return ""
+	return "", ""
 }
